@@ -3,14 +3,14 @@
 # runs the demo against the mutated binary (must fail) and against the clean binary (must pass). Prints one summary line.
 WT="$1"; N="$2"; M="$WT/mutants"; export CARGO_NET_OFFLINE=true
 cd "$WT" || exit 2
-git checkout -q -- src 2>/dev/null
+git checkout -q -- src 2>/dev/null; git clean -fdq src 2>/dev/null
 if ! git apply --check "$M/m$N.diff" 2>/dev/null; then echo "$WT m$N: DIFF-DOES-NOT-APPLY"; exit 1; fi
 git apply "$M/m$N.diff"
 B=$(cargo build --offline 2>&1 | tail -1)
 T=$(cargo test --workspace --no-fail-fast --offline 2>&1 | grep -E "^test result" | awk '{p+=$4; f+=$6} END {print p" passed "f" failed"}')
 cp target/debug/zinoma /tmp/confirm-bin-$$-mut
 timeout -s KILL 120 bash "$M/m${N}_demo.sh" /tmp/confirm-bin-$$-mut >/tmp/confirm-$$-mut.log 2>&1; RM=$?
-git checkout -q -- src
+git checkout -q -- src; git clean -fdq src
 cargo build --offline >/dev/null 2>&1
 cp target/debug/zinoma /tmp/confirm-bin-$$-clean
 timeout -s KILL 120 bash "$M/m${N}_demo.sh" /tmp/confirm-bin-$$-clean >/tmp/confirm-$$-clean.log 2>&1; RC=$?
